@@ -5,6 +5,7 @@ CONSTANTS
   MaxDocsA = 1
   MaxEvA = 1
   Rich = TRUE
+  Side = TRUE
 INIT GenInit
 NEXT GenNext
 CHECK_DEADLOCK FALSE
